@@ -9,8 +9,11 @@
 (* The records come from the accessor hook: one line per compiled clause of the real interpreter.      *)
 EXTENDS Terms, Json, IOUtils
 
-Op(c, i) == c[i][1]
-Arg(c, i) == c[i][2]
+\* total: reading past the end of a malformed instruction sequence gives the pseudo instruction "eof", and Decompile
+\* then yields a term containing '$bad', which denotes nothing
+Op(c, i) == IF i >= 1 /\ i <= Len(c) THEN c[i][1] ELSE "eof"
+Arg(c, i) == IF i >= 1 /\ i <= Len(c) THEN c[i][2] ELSE <<"i", 0>>
+Bad == A("$bad")
 PIName(t) == t[3][1][2]
 PIArity(t) == t[3][2][2]
 
@@ -22,15 +25,17 @@ ParseOne(c, i, kind) ==
     [] op = kind \o "_var" -> [t |-> V(Arg(c, i)[2] + 1), i |-> i + 1]
     [] op = kind \o "_functor" ->
          LET r == ParseArgs(c, i + 1, PIArity(Arg(c, i)), kind) IN
-         [t |-> C(PIName(Arg(c, i)), r.ts), i |-> IF Op(c, r.i) = "pop" THEN r.i + 1 ELSE Assert(FALSE, "pop expected")]
+         [t |-> IF Op(c, r.i) = "pop" THEN C(PIName(Arg(c, i)), r.ts) ELSE Bad, i |-> r.i + 1]
     [] op = kind \o "_list" ->
-         LET r == ParseArgs(c, i + 1, Arg(c, i)[2], kind) IN [t |-> MkList(r.ts), i |-> r.i + 1]
+         LET r == ParseArgs(c, i + 1, Arg(c, i)[2], kind) IN [t |-> IF Op(c, r.i) = "pop" THEN MkList(r.ts) ELSE Bad, i |-> r.i + 1]
     [] op = kind \o "_partial" ->
          LET tl == ParseArgs(c, i + 1, 1, kind)
              r == ParseArgs(c, tl.i, Arg(c, i)[2], kind)
-         IN [t |-> LET RECURSIVE PL(_,_) PL(s, t) == IF s = <<>> THEN t ELSE Cons(s[1], PL(Tail(s), t)) IN PL(r.ts, tl.ts[1]), i |-> r.i + 1]
+         IN [t |-> IF Op(c, r.i) # "pop" \/ tl.ts = <<>> THEN Bad
+                   ELSE LET RECURSIVE PL(_,_) PL(s, t) == IF s = <<>> THEN t ELSE Cons(s[1], PL(Tail(s), t)) IN PL(r.ts, tl.ts[1]), i |-> r.i + 1]
+    [] OTHER -> [t |-> Bad, i |-> Len(c) + 2]
 ParseArgs(c, i, n, kind) ==
-  IF n = 0 THEN [ts |-> <<>>, i |-> i]
+  IF n <= 0 \/ i > Len(c) + 1 THEN [ts |-> [k \in 1..(IF n > 0 THEN n ELSE 0) |-> Bad], i |-> i]
   ELSE LET one == ParseOne(c, i, kind)
            rest == ParseArgs(c, one.i, n - 1, kind)
        IN [ts |-> <<one.t>> \o rest.ts, i |-> rest.i]
@@ -39,14 +44,16 @@ ParseArgs(c, i, n, kind) ==
 RECURSIVE ParseGoals(_,_)
 ParseGoals(c, i) ==
   IF Op(c, i) = "exit" THEN <<>>
+  ELSE IF Op(c, i) = "eof" THEN <<Bad>>
   ELSE IF Op(c, i) = "cut" THEN <<A("!")>> \o ParseGoals(c, i + 1)
   ELSE \* arguments until the call instruction: count them by scanning to the matching call
        LET RECURSIVE Scan(_,_)      \* parse argument terms until a call instruction is reached
-           Scan(j, acc) == IF Op(c, j) = "call" THEN [ts |-> acc, i |-> j]
+           Scan(j, acc) == IF Op(c, j) \in {"call", "eof"} THEN [ts |-> acc, i |-> j]
                            ELSE LET one == ParseOne(c, j, "put") IN Scan(one.i, Append(acc, one.t))
            s == Scan(i, <<>>)
            pi == Arg(c, s.i)
-       IN <<(IF PIArity(pi) = 0 THEN A(PIName(pi)) ELSE C(PIName(pi), s.ts))>> \o ParseGoals(c, s.i + 1)
+       IN IF Op(c, s.i) = "eof" \/ ~(IsCmp(pi) /\ Len(pi[3]) = 2) THEN <<Bad>>
+          ELSE <<(IF PIArity(pi) = 0 THEN A(PIName(pi)) ELSE IF Len(s.ts) = PIArity(pi) THEN C(PIName(pi), s.ts) ELSE Bad)>> \o ParseGoals(c, s.i + 1)
 
 RECURSIVE Conj(_)
 Conj(s) == IF Len(s) = 1 THEN s[1] ELSE C(",", <<s[1], Conj(Tail(s))>>)
@@ -56,6 +63,7 @@ Decompile(rec) ==
       h == ParseArgs(c, 1, rec.arity, "get")
       head == IF rec.arity = 0 THEN A(rec.pred) ELSE C(rec.pred, h.ts)
   IN IF Op(c, h.i) = "exit" THEN head
+     ELSE IF Op(c, h.i) # "enter" THEN Bad
      ELSE LET gs == ParseGoals(c, h.i + 1) IN C(":-", <<head, IF gs = <<>> THEN A("true") ELSE Conj(gs)>>)
 
 \* the stored term, normalised the way the compiler reads it: right spine of ',' flattened, variable goals as call/1,
